@@ -45,4 +45,6 @@ SeqLife  == [c \in {"A", "B"} |-> IF c = "A" THEN <<"dlc", "dlc">> ELSE <<"dlc",
 SeqLifeT == [c \in {"A", "B"} |-> IF c = "A" THEN <<"dlc", "dlc", "dlc">> ELSE <<"dlc", "ldl", "dlc">>]
 Max43L   == [c \in {"A", "B"} |-> IF c = "A" THEN 4 ELSE 3]
 BAL      == {5}
+\* link MIUs of the scaled model: A announces 3, B announces 2 (a sender may put as much as the RECEIVER announced)
+MiuAB == [c \in {"A", "B"} |-> IF c = "A" THEN 3 ELSE 2]
 =============================================================================
